@@ -291,6 +291,7 @@ type c09Cfg struct {
 	ZipfS    float64 `json:"zipf_s,omitempty"`
 	Mixed    bool    `json:"mixed_costs"`
 	PreUsed  bool    `json:"pre_used_concurrently"`
+	AfterRec bool    `json:"after_recency_friendly_phase,omitempty"`
 	Requests int     `json:"requests"`
 }
 
@@ -332,11 +333,40 @@ func c09Trace(r *Run, idx int, cfg c09Cfg) {
 			}
 		}
 	}
+	res := map[string]any{"config": cfg, "preuse_ops": pre}
 	state := "fresh"
 	if cfg.PreUsed {
 		state = "pre-used"
 	}
-	res := map[string]any{"config": cfg, "preuse_ops": pre}
+	if cfg.AfterRec {
+		// a recency-friendly history first: every key is read again shortly after it was written and then
+		// never again, over a population of 3 x MaxSize - the hill climber answers by growing the window.
+		// The measured hot-set workload follows; the property promises that its hit ratio converges.
+		state = "after-recency-phase"
+		// every new key is read again exactly once, a random short while (up to 0.7 x MaxSize steps)
+		// after it was inserted, for 2500 x MaxSize steps: long enough for the window to reach its
+		// maximum and for the climber's step to decay to almost nothing (0.98 per sample of 10 x MaxSize
+		// events), so that only a restart of the climber can bring the window back afterwards
+		maxd := cfg.MaxSize * 7 / 10
+		ring := make([][]int, maxd+1)
+		next := 1 << 28
+		for i := 0; i < 2500*cfg.MaxSize; i++ {
+			slot := i % (maxd + 1)
+			for _, k := range ring[slot] {
+				cc.read(k)
+				lru.access(k, int(cost(k)))
+			}
+			ring[slot] = ring[slot][:0]
+			next++
+			cc.insert(next)
+			lru.insert(next, int(cost(next)))
+			ds := (i + 1 + rng.Intn(maxd)) % (maxd + 1)
+			ring[ds] = append(ring[ds], next)
+		}
+		cc.wait()
+		pc, wc := cc.split()
+		res["window_capacity_after_recency_phase"], res["protected_capacity_after_recency_phase"] = wc, pc
+	}
 	switch cfg.Workload {
 	case "hot":
 		fresh := 1 << 24
@@ -384,7 +414,14 @@ func c09Trace(r *Run, idx int, cfg c09Cfg) {
 			r.Inconclusive(1)
 		} else if hr < c09HotThreshold {
 			key := fmt.Sprintf("hot-set-lost/%s/%s", cfg.Kind, state)
-			if minProtCap < sum && cfg.MaxSize <= 1000 && hr >= 0.70 {
+			if cfg.AfterRec && minProtCap < sum && cfg.MaxSize <= 2048 && hr >= 0.80 {
+				// second open finding, same mechanism after a different history: following a long
+				// recency-friendly phase (window at 70-80% of the cache, climber step decayed) the climber
+				// restarts but, at 3 inserts per read, is still swinging through "protected smaller than the
+				// hot set" during the measured quarter: observed 0.918..0.958 in 4 of 24 traces at MaxSize
+				// 1024 / 2048 (1:1 mix: never below 0.993). Outside those bounds it is a new violation.
+				key = "hot-set-lost/after-recency-phase/adaptive-window-squeezed-protected-below-hot-set/maxsize<=2048/hit-ratio>=0.80"
+			} else if !cfg.AfterRec && minProtCap < sum && cfg.MaxSize <= 1000 && hr >= 0.70 {
 				// the open finding, identified by what was observed on the unchanged tree over 1620 hot-set
 				// traces: the hill climber grows the window until the protected region is smaller than the
 				// hot set; seen at MaxSize 50..1000 (never at >= 10000), hit ratio never below 0.818.
@@ -425,12 +462,13 @@ func c09Trace(r *Run, idx int, cfg c09Cfg) {
 		fmt.Printf("C09TRACE %s\n", b)
 	}
 	r.Eval(1)
-	r.Distinct(fmt.Sprintf("%s/%s/M%d/f%.2f/%d:%d/s%.2f/mixed=%v/pre=%v", cfg.Workload, cfg.Kind, cfg.MaxSize, cfg.HotFrac, cfg.Reads, cfg.Inserts, cfg.ZipfS, cfg.Mixed, cfg.PreUsed))
+	r.Distinct(fmt.Sprintf("%s/%s/M%d/f%.2f/%d:%d/s%.2f/mixed=%v/pre=%v/rec=%v", cfg.Workload, cfg.Kind, cfg.MaxSize, cfg.HotFrac, cfg.Reads, cfg.Inserts, cfg.ZipfS, cfg.Mixed, cfg.PreUsed, cfg.AfterRec))
 	r.Sample(8, res)
 }
 
 func c09Configs(r *Run) []c09Cfg {
-	sizes := []int{50, 200, 1000, 10000}
+	// powers of two on purpose: table sizes of the frequency sketch and several masks are powers of two
+	sizes := []int{50, 64, 200, 1000, 1024, 4096, 10000}
 	if r.Thorough() {
 		sizes = append(sizes, 100000)
 	}
@@ -456,6 +494,17 @@ func c09Configs(r *Run) []c09Cfg {
 					}
 				}
 			}
+			// hot set after a long recency-friendly history (sizes above the open finding's range; at most
+			// 3 inserts per read, where the unchanged climber is known to come back; a longer measured phase)
+			if m == 1024 || m == 4096 {
+				mm := m
+				if m == 4096 {
+					mm = 2048
+				}
+				for _, mix := range [][2]int{{1, 1}, {1, 3}} {
+					all = append(all, c09Cfg{Workload: "hot", Kind: k, MaxSize: mm, HotFrac: 0.5, Reads: mix[0], Inserts: mix[1], AfterRec: true, Requests: 600 * mm})
+				}
+			}
 		}
 	}
 	return all
@@ -477,6 +526,15 @@ func runC09(r *Run) {
 	r.Assume("a hit = answered from the memory tier without running the loader / consulting the secondary store",
 		"thresholds 0.97 (hot set) and LRU-0.005 (Zipf) are set inside the margins measured on the repaired tree; the traces are PRNG-determined per seed")
 	all := c09Configs(r)
+	if r.Args["onlyrec"] != "" { // calibration aid: only the after-recency arm
+		var f []c09Cfg
+		for _, c := range all {
+			if c.AfterRec {
+				f = append(f, c)
+			}
+		}
+		all = f
+	}
 	rng := r.Rng(2)
 	var mine []c09Cfg
 	if r.Thorough() {
@@ -488,16 +546,26 @@ func runC09(r *Run) {
 	} else {
 		// quick: a PRNG-chosen stratified subset: per shard 4 hot + 2 zipf traces, half of them pre-used, sizes <= 10000
 		perm := rng.Perm(len(all))
-		hotN, zipfN := 0, 0
+		hotN, zipfN, pow2N, recN := 0, 0, 0, 0
+		isPow2 := func(m int) bool { return m&(m-1) == 0 }
 		for _, p := range perm {
 			c := all[p]
 			if p%r.NShards != r.Shard {
 				continue
 			}
-			if c.Workload == "hot" && hotN < 4 {
+			switch {
+			case c.AfterRec:
+				if recN < 1 {
+					recN++
+					mine = append(mine, c)
+				}
+			case c.Workload == "hot" && isPow2(c.MaxSize) && c.MaxSize >= 1024 && pow2N < 1:
+				pow2N++
+				mine = append(mine, c)
+			case c.Workload == "hot" && hotN < 4:
 				hotN++
 				mine = append(mine, c)
-			} else if c.Workload == "zipf" && zipfN < 2 {
+			case c.Workload == "zipf" && zipfN < 2:
 				zipfN++
 				mine = append(mine, c)
 			}
